@@ -49,6 +49,7 @@ type specCall struct {
 }
 
 type pipeCase struct {
+	raw   string
 	Inp   []int      `json:"inp"`
 	Eol   string     `json:"eol"`
 	Calls []specCall `json:"calls"`
@@ -473,6 +474,7 @@ func init() {
 				if err := json.Unmarshal(js, &pc); err != nil {
 					return err
 				}
+				pc.raw = string(js)
 				cases = append(cases, pc)
 			}
 			return nil
@@ -480,6 +482,7 @@ func init() {
 		if err != nil {
 			return err
 		}
+		sortByKey(len(cases), func(i int) string { return cases[i].raw }, func(i, j int) { cases[i], cases[j] = cases[j], cases[i] })
 		if len(alpha) == 0 || len(cases) == 0 {
 			res.infra("no alphabet or no cases in %s", *c.in)
 			return res.write(*c.out)
